@@ -146,6 +146,7 @@ func buildArtefacts() *artefacts {
 	if err != nil {
 		die(2, "mktemp: %v", err)
 	}
+	scratchDirs = append(scratchDirs, scratch)
 	defer os.RemoveAll(scratch)
 	if out, err := run("/", "rsync", "-a", "--exclude", ".git", repoDir+"/", scratch+"/"); err != nil {
 		die(2, "copy tree: %v\n%s", err, out)
@@ -182,10 +183,12 @@ func buildArtefacts() *artefacts {
 	if _, err := os.Stat(filepath.Join(verifDir, "plugsim", "main.go")); err == nil {
 		ps, err := os.MkdirTemp("", "vplug")
 		if err == nil {
+			scratchDirs = append(scratchDirs, ps)
 			defer os.RemoveAll(ps)
 			run("/", "rsync", "-a", filepath.Join(verifDir, "plugsim")+"/", ps+"/")
 			// the replace target must be the pristine copy of the tree under test (not the rewritten one)
 			pristine, _ := os.MkdirTemp("", "vpristine")
+			scratchDirs = append(scratchDirs, pristine)
 			defer os.RemoveAll(pristine)
 			run("/", "rsync", "-a", "--exclude", ".git", repoDir+"/", pristine+"/")
 			gm, _ := os.ReadFile(filepath.Join(ps, "go.mod"))
